@@ -150,12 +150,21 @@ def run_path(I, con, vname, module, cls, fn, params, requires, ensures, raises, 
     may_terms = {e: eval_spec(I, c, sf, f"{qual} may_raise[{e}]") for e, c in may_raise.items()}
     if is_gen:
         ety = con.ghost.get('yield_type', 'bytes')
+        tagged = ety == 'yieldtag'
+        if tagged:
+            # heterogeneous yields (raw packets, parsed packets, error objects): the ghost list `out` records the KIND of
+            # each item (0 raw bytes, 1 parsed packet, 2 exception object); clauses speak about the item itself
+            ety = 'int'
         lt = TY.list_theory(TY.smt_sort(ety))
         path.yielded = SV('slist', lt.lempty, extra={'elem': ety})
 
         def on_yield(I_, v, node, fr):
             from .contract import coerce_arg
-            cv = coerce_arg(I_, v, ety, node, 'yield')
+            if tagged:
+                kind_tag = 2 if v.kind == 'exc' else (0 if I_.is_byteslike(v) else (1 if v.kind == 'mobj' else None))
+                cv = None if kind_tag is None else mk_int(kind_tag)
+            else:
+                cv = coerce_arg(I_, v, ety, node, 'yield')
             if cv is None:
                 path.oblige(f"{qual}:yield:type", z3.BoolVal(False), note=f"yielded {v.kind}")
                 raise PathEnd('ill-typed yield')
@@ -163,10 +172,10 @@ def run_path(I, con, vname, module, cls, fn, params, requires, ensures, raises, 
             for k2, v2 in fr.vars.items():
                 sf2.vars.setdefault(k2, v2)
             sf2.vars.update(sf.vars)
-            sf2.vars['item'] = cv
+            sf2.vars['item'] = v if tagged else cv
             sf2.vars['item_obj'] = v
             sf2.vars['out'] = path.yielded
-            for name, e in con.yields.items():
+            for name, e in con._filter(con.yields, getattr(registry, 'current_prop', None)).items():
                 path.oblige(f"{qual}:yield:{name}", eval_spec(I_, e, sf2, f"{qual} yields[{name}]"))
             path.yielded = SV('slist', lt.lapp(path.yielded.t, cv.t), extra={'elem': ety})
         I.yield_handler = on_yield
@@ -195,6 +204,11 @@ def run_path(I, con, vname, module, cls, fn, params, requires, ensures, raises, 
         else:
             cond = raise_terms.get(declared, may_terms.get(declared))
             path.oblige(f"{qual}:raises:{declared}:only_if", cond, note=f"raised at {e.origin}")
+            for attr_, pname_ in con.ghost.get('raise_payload', {}).get(declared, {}).items():
+                got = e.payload.get(attr_)
+                same = got is not None and got.kind == 'mobj' and svs[pname_].kind == 'mobj' and got.t is svs[pname_].t
+                path.oblige(f"{qual}:on_raise:{declared}:payload:{attr_}", z3.BoolVal(bool(same)),
+                            note=f"exception attribute {attr_} must be the argument {pname_} itself")
             sf.vars['exc'] = SV('exc', (e.exc_cls, e.payload))
             for k2, v2 in frame.vars.items():
                 sf.vars.setdefault(k2, v2)      # exit-state clauses may mention the function's locals
@@ -206,7 +220,12 @@ def run_path(I, con, vname, module, cls, fn, params, requires, ensures, raises, 
     for e, t in raise_terms.items():
         path.oblige(f"{qual}:raises:{e}:must", z3.Not(t))
     rv = result
-    if returns is not None and returns != 'any':
+    if isinstance(returns, tuple) and returns[0] == 'arg':
+        # the contract promises to return the argument object itself
+        same = rv.kind == 'mobj' and svs[returns[1]].kind == 'mobj' and rv.t is svs[returns[1]].t
+        path.oblige(f"{qual}:post:returns_argument", z3.BoolVal(bool(same)),
+                    note=f"returned {rv.kind}/{rv.cls} where the argument {returns[1]} itself is required")
+    elif returns is not None and returns != 'any':
         from .contract import coerce_arg
         cv = coerce_arg(I, rv, _thaw(returns) if not isinstance(returns, str) else returns, None, 'result')
         if cv is None:
